@@ -213,6 +213,8 @@ func estimateExpansion(text string) float64 {
 		}
 	}
 	// bound of a list of expression fields: product of the literals (>1) and of the bounds of the identifiers
+	// (memoised per name: an EQU that mentions another one many times would otherwise cost branching^depth)
+	memo := map[string]float64{}
 	var bound func(fs []string, depth int) float64
 	bound = func(fs []string, depth int) float64 {
 		b := 1.0
@@ -222,7 +224,13 @@ func estimateExpansion(text string) float64 {
 					b *= v
 				}
 			} else if val, ok := equ[f]; ok && depth < 8 {
-				if x := bound(val, depth+1); x > 1 {
+				x, done := memo[f]
+				if !done {
+					memo[f] = maxLit // while it is being computed (a cycle): like an unknown identifier
+					x = bound(val, depth+1)
+					memo[f] = x
+				}
+				if x > 1 {
 					b *= x
 				}
 			} else if !strings.EqualFold(f, "for") {
